@@ -35,6 +35,10 @@ mod bounds {
 }
 pub use bounds::{Own, Ref};
 
+fn bytes_sx(b: &[u8]) -> Sx {
+    l(b.iter().map(|x| n(*x as usize)).collect())
+}
+
 fn res<T: Wire>(r: Option<T>) -> Sx {
     match r {
         Some(v) => v.to_sx(),
@@ -69,7 +73,8 @@ where
         };
         let deco: Option<Vec<T::Diff>> = guarded(|| nanoserde::DeBin::deserialize_bin(&bo).ok()).flatten();
         let decr: Option<Vec<T::Diff>> = guarded(|| nanoserde::DeBin::deserialize_bin(&br).ok()).flatten();
-        let mut v = vec![tag("owned-len", vec![n(bo.len())]), tag("ref-len", vec![n(br.len())]), tag("same-bytes", vec![a(if bo == br { "true" } else { "false" })])];
+        let mut v = vec![tag("owned-len", vec![n(bo.len())]), tag("ref-len", vec![n(br.len())]), tag("same-bytes", vec![a(if bo == br { "true" } else { "false" })]),
+            tag("owned-bytes", vec![bytes_sx(&bo)]), tag("ref-bytes", vec![bytes_sx(&br)])];
         for (name, dec) in [("owned", deco), ("ref", decr)] {
             match dec {
                 None => v.push(tag(&format!("{}-decode", name), vec![a("reject")])),
@@ -95,7 +100,8 @@ where
         };
         let deco: Option<Vec<T::Diff>> = guarded(|| bincode::deserialize(&bo).ok()).flatten();
         let decr: Option<Vec<T::Diff>> = guarded(|| bincode::deserialize(&br).ok()).flatten();
-        let mut v = vec![tag("owned-len", vec![n(bo.len())]), tag("ref-len", vec![n(br.len())]), tag("same-bytes", vec![a(if bo == br { "true" } else { "false" })])];
+        let mut v = vec![tag("owned-len", vec![n(bo.len())]), tag("ref-len", vec![n(br.len())]), tag("same-bytes", vec![a(if bo == br { "true" } else { "false" })]),
+            tag("owned-bytes", vec![bytes_sx(&bo)]), tag("ref-bytes", vec![bytes_sx(&br)])];
         for (name, dec) in [("owned", deco), ("ref", decr)] {
             match dec {
                 None => v.push(tag(&format!("{}-decode", name), vec![a("reject")])),
@@ -113,4 +119,43 @@ where
         out.push(tag("bincode", v));
     }
     tag("ok", out)
+}
+
+/// `(derive <id> wiredec <fmt> (bytes) <base>)`: decode arbitrary bytes as the OWNED diff list of the type, re-encode,
+/// apply to the base (C14: the byte-level tie of the generated diff enums with the Lean framing model)
+#[allow(unused_variables)]
+pub fn wire_dec<T>(args: &[Sx]) -> Sx
+where
+    T: StructDiff + Wire + Clone + PartialEq,
+    T::Diff: Clone + Own,
+{
+    let (Some(fmt), Some(bs), Some(base)) = (args.get(0), args.get(1).and_then(|b| b.list()), args.get(2).and_then(T::from_sx)) else {
+        return tag("bad-value", vec![]);
+    };
+    let Some(bytes) = bs.iter().map(|x| x.nat().map(|v| v as u8)).collect::<Option<Vec<u8>>>() else {
+        return tag("bad-value", vec![]);
+    };
+    #[cfg(feature = "nanoserde")]
+    if *fmt == a("nano") {
+        let dec: Option<Vec<T::Diff>> = guarded(|| nanoserde::DeBin::deserialize_bin(&bytes).ok()).flatten();
+        return match dec {
+            None => tag("reject", vec![]),
+            Some(dd) => {
+                let reenc = nanoserde::SerBin::serialize_bin(&dd);
+                tag("ok", vec![tag("entries", vec![n(dd.len())]), tag("reenc", vec![bytes_sx(&reenc)]), tag("applied", vec![res(guarded(move || base.apply(dd)))])])
+            }
+        };
+    }
+    #[cfg(feature = "serde")]
+    if *fmt == a("bincode") {
+        let dec: Option<Vec<T::Diff>> = guarded(|| bincode::deserialize(&bytes).ok()).flatten();
+        return match dec {
+            None => tag("reject", vec![]),
+            Some(dd) => {
+                let reenc = bincode::serialize(&dd).unwrap();
+                tag("ok", vec![tag("entries", vec![n(dd.len())]), tag("reenc", vec![bytes_sx(&reenc)]), tag("applied", vec![res(guarded(move || base.apply(dd)))])])
+            }
+        };
+    }
+    tag("codec-missing", vec![])
 }
